@@ -534,8 +534,71 @@ fn first_len(a: &str, b: &str) -> usize {
     a.len().max(b.len())
 }
 
+/// Turns the k-th `And`/`Or` of the tree (pre-order) into the other combinator; returns how many
+/// combinators were seen.
+fn flip_combinator(nodes: &mut [Node], k: &mut isize) -> usize {
+    fn in_cond(c: &mut Cond, k: &mut isize) -> usize {
+        let mut seen = 0;
+        let flipped = match &*c {
+            Cond::And { id, ops } => {
+                seen += 1;
+                *k -= 1;
+                if *k == -1 { Some(Cond::Or { id: *id, ops: ops.clone() }) } else { None }
+            }
+            Cond::Or { id, ops } => {
+                seen += 1;
+                *k -= 1;
+                if *k == -1 { Some(Cond::And { id: *id, ops: ops.clone() }) } else { None }
+            }
+            _ => None,
+        };
+        if let Some(f) = flipped {
+            *c = f;
+            return seen;
+        }
+        match c {
+            Cond::And { ops, .. } | Cond::Or { ops, .. } => seen += ops.iter_mut().map(|o| in_cond(o, k)).sum::<usize>(),
+            Cond::Not { inner, .. } => seen += in_cond(inner, k),
+            _ => {}
+        }
+        seen
+    }
+    let mut seen = 0;
+    for n in nodes.iter_mut() {
+        match n {
+            Node::While { cond, body, .. } => {
+                seen += in_cond(cond, k);
+                seen += flip_combinator(body, k);
+            }
+            Node::If { cond, then, els, .. } => {
+                seen += in_cond(cond, k);
+                seen += flip_combinator(then, k);
+                if let Some(e) = els {
+                    seen += flip_combinator(e, k);
+                }
+            }
+            Node::Scope { body, .. } => seen += flip_combinator(body, k),
+            _ => {}
+        }
+    }
+    seen
+}
+
 /// A structurally or parametrically different variant of `p`.
 fn mutate_program(p: &Program, g: &mut crate::rng::Gen) -> Option<Program> {
+    // the same operands under the other Boolean combinator are another configuration
+    if g.chance(0.4) {
+        let mut probe = p.root.clone();
+        let n = flip_combinator(&mut probe, &mut isize::MAX.clone());
+        if n > 0 {
+            let mut root = p.root.clone();
+            let mut k = g.below(n) as isize;
+            flip_combinator(&mut root, &mut k);
+            if root != p.root {
+                return Some(Program { root, ..p.clone() });
+            }
+        }
+    }
     let cands = shrink_nodes(&p.root);
     if cands.is_empty() {
         return None;
